@@ -206,11 +206,12 @@ Section WithEnv.
       load_sections_loop junk fuel st [] c enc shoff es i (i + lenN secs) true racc allocs = Ok (st', rev loaded ++ racc, allocs) /\
       is_fail st' = false /\ st_inv st' /\ is_content st' = is_content st /\
       Forall2 same_hdr secs loaded /\
-      Forall (fun r => s_data r = None /\ s_stream_size r = lenN (is_content st) /\ s_cls r = c) loaded.
+      Forall (fun r => s_data r = None /\ s_stream_size r = lenN (is_content st) /\ s_cls r = c) loaded /\
+      (forall k r, nth_optN loaded k = Some r -> s_index r = wrap16 (i + k)).
   Proof.
     induction secs as [|s t IH]; intros fuel st i racc allocs Hf Hi H62 Hes Hb1 Hb2 Hwf Hsl Hfuel.
     - cbn [lenN] in *. rewrite N.add_0_r. exists st, []. cbn [rev app].
-      destruct fuel; cbn [load_sections_loop]; [|rewrite N.ltb_irrefl]; repeat split; auto.
+      destruct fuel; cbn [load_sections_loop]; [|rewrite N.ltb_irrefl]; repeat split; auto; intros k r Hk; discriminate.
     - rewrite lenN_cons in *. destruct fuel as [|f]; [cbn in Hfuel; lia|]. cbn [length] in Hfuel.
       inversion Hwf as [|? ? [Hc Hw] Hwt]; subst.
       cbn [load_sections_loop]. destruct (N.ltb_spec i (i + (1 + lenN t))); [|lia].
@@ -223,7 +224,7 @@ Section WithEnv.
       cbn [bind app].
       set (r' := with_addr r (sh_addr r)).
       replace (i + (1 + lenN t)) with ((i + 1) + lenN t) by lia.
-      destruct (IH f st1 (i + 1) (r' :: racc) allocs F1 I1 H62 Hes) as (st' & loaded & -> & F' & I' & C' & H2 & H3).
+      destruct (IH f st1 (i + 1) (r' :: racc) allocs F1 I1 H62 Hes) as (st' & loaded & -> & F' & I' & C' & H2 & H3 & H4).
       + lia. + rewrite C1. lia. + exact Hwt.
       + intros k s' Hk. rewrite C1. replace (i + 1 + k) with (i + (k + 1)) by lia. apply Hsl.
         cbn [nth_optN]. destruct (N.eqb_spec (k + 1) 0); [lia|]. now replace (k + 1 - 1) with k by lia.
@@ -233,7 +234,11 @@ Section WithEnv.
         * constructor; [|exact H2]. unfold same_hdr, r'. cbn [sh_name sh_type sh_flags sh_addr sh_offset sh_size sh_link sh_info sh_addralign sh_entsize with_addr].
           destruct Hw as (_ & _ & _ & Hwa & _). rewrite CL1. unfold wrap. rewrite N.mod_small by (rewrite A4; unfold fw in Hwa; destruct (s_cls s); exact Hwa).
           repeat split; assumption.
-        * constructor; [|rewrite <- C1; exact H3]. unfold r'. cbn. rewrite CL1. auto.
+        * split.
+          -- constructor; [|rewrite <- C1; exact H3]. unfold r'. cbn. rewrite CL1. auto.
+          -- intros k r0 Hk. cbn [nth_optN] in Hk. destruct (N.eqb_spec k 0) as [->|Hk0].
+             ++ injection Hk as <-. unfold r'. cbn [s_index with_addr]. rewrite A11. now rewrite N.add_0_r.
+             ++ rewrite (H4 _ _ Hk). f_equal. lia.
   Qed.
 
   (* a section's name is the NUL-terminated string found at its name offset in
